@@ -24,12 +24,13 @@ struct Rule {
     sel: String,
     decls: Vec<(String, String, bool)>,
 }
-pub const REWRITES: [&str; 33] = [
+pub const REWRITES: [&str; 37] = [
     "base", "minified", "pretty-printed", "comments at token boundaries", "final semicolon dropped", "final semicolon doubled", "unknown property first", "unknown property last",
     "upper-case property names", "upper-case hex digits", "@media block before", "@import before", "unparsable rule set q{{}} before", "unparsable rule set !!!{..} before",
     "@media block between rules", "unparsable rule set between rules", "@media block after", "unsupported pseudo-class rule before", "unsupported pseudo-class rule between",
     "inner semicolon doubled", "unparsable rule set after", "bare @ after", "garbage after", "whitespace before semicolons", "comment before semicolons", "CRLF and tabs", "leading semicolon in blocks", "unknown at-rule statement between rules",
     "final semicolon doubled with a space between", "final semicolon doubled with a newline between", "final semicolon doubled with a comment between", "inner semicolons doubled with whitespace between", "two leading semicolons with a space between",
+    "unknown at-rule with several nested rule sets before", "unknown at-rule with several nested rule sets between", "unparsable rule set with nested blocks before", "@media with several nested rule sets after",
 ];
 fn render_sheet(rules: &[Rule], v: usize) -> String {
     let mut s = String::new();
@@ -38,12 +39,17 @@ fn render_sheet(rules: &[Rule], v: usize) -> String {
     let junk_rule = "q{{}}";
     let junk_rule2 = "!!! { color: red; }";
     let junk_rule3 = "p:hover{color:red;}";
+    // statements that must be skipped as a whole although they contain rule sets that would match
+    let junk_nested = "@x-unknown foo { i { color: blue } p { color: blue; display: none } span { background-color: #333 } div p { color: #123 } }";
+    let junk_nested2 = "!!bogus { x { color: blue } p { color: blue } span { color: #456 } }";
     match v {
         10 => s += junk_at,
         11 => s += junk_at2,
         12 => s += junk_rule,
         13 => s += junk_rule2,
         17 => s += junk_rule3,
+        33 => s += junk_nested,
+        35 => s += junk_nested2,
         _ => {}
     }
     for (i, r) in rules.iter().enumerate() {
@@ -53,6 +59,7 @@ fn render_sheet(rules: &[Rule], v: usize) -> String {
                 15 => s += junk_rule,
                 18 => s += junk_rule3,
                 27 => s += "@charset \"utf-8\"; @font-face { font-family: x; src: url(y) }",
+                34 => s += junk_nested,
                 _ => {}
             }
         }
@@ -117,6 +124,7 @@ fn render_sheet(rules: &[Rule], v: usize) -> String {
         20 => s += junk_rule,
         21 => s += "@",
         22 => s += "garbage",
+        36 => s += "@media print { i { color: blue } p { color: blue; display: none } span { background-color: #333 } }",
         _ => {}
     }
     s
@@ -327,7 +335,7 @@ impl Scope for S {
     }
     fn info(&self) -> Info {
         Info {
-            rule: "(a) every sequence of soup_len tokens over the 30-token CSS alphabet (last position also over 12 extra tokens: CDO/CDC, numeric limits, 1e999, newline, @media) through add_css (all), add_agent_css (every 4th prefix) and, for sequences with a short prefix, <style> and the style attribute; every truncation of 5 spellings of every rule set; :nth-child with 13x13 extreme coefficient pairs in 6 argument forms incl. matching; (b) every rule set of 1..2 (thorough 3) rules x 32 syntax rewrites x routes: rich output must be identical; non-trivial = rewrite changed the bytes / soup contains a block or is rejected".into(),
+            rule: "(a) every sequence of soup_len tokens over the 30-token CSS alphabet (last position also over 12 extra tokens: CDO/CDC, numeric limits, 1e999, newline, @media) through add_css (all), add_agent_css (every 4th prefix) and, for sequences with a short prefix, <style> and the style attribute; every truncation of 5 spellings of every rule set; :nth-child with 13x13 extreme coefficient pairs in 6 argument forms incl. matching; (b) every rule set of 1..2 (thorough 3) rules x 36 syntax rewrites x routes: rich output must be identical; non-trivial = rewrite changed the bytes / soup contains a block or is rejected".into(),
             bounds: json!({"soup_length": self.soup_len, "alphabet": TOKENS, "extra_last_tokens": TOKENS2, "rule_sets": self.n_eq, "rewrites": REWRITES[1..].to_vec(), "truncated_rule_sets": self.n_trunc, "nth_pairs": self.n_nth}),
             assumptions: vec!["the token alphabet cannot spell display/content/white-space declarations, so junk CSS cannot legitimately change the text".into()],
         }
